@@ -40,7 +40,7 @@ fn replay(args: &Args, path: &str) -> i32 {
     let choices: Vec<u32> = v["detail"]["choices"].as_array().map(|a| a.iter().filter_map(|x| x.as_u64().map(|y| y as u32)).collect()).unwrap_or_default();
     match args.id.as_str() {
         "C12" => c12::replay(args, &identity, choices),
-        "C13" => c13::replay(args, &identity, choices),
+        "C13" if !identity.contains("/lag1_all_histories/") => c13::replay(args, &identity, choices),
         _ => {
             println!("recorded violation of {} (identity: {identity})", args.id);
             println!("{}", serde_json::to_string_pretty(&v["detail"]).unwrap_or_default());
